@@ -284,4 +284,49 @@ example : encIngRelation ⟨.reference 0, some .step⟩ =
     .obj [(.type, .str Tag.reference.str), (.referencesTo, .num (.int 0)), (.referenceTarget, .str Tag.step.str)] := rfl
 end Serde
 
+/-! Non-vacuity for the parsed-recipe theorems.  (A whole `parseRecipe` run on an input with components is not
+    evaluated here: the kernel needs a quarter of an hour for `@?x`; the pieces are — `parse_modifiers` on modifier
+    tokens, the analysis on component events — and the hypothesis is shown satisfiable on the empty input.) -/
+
+def C15_exCs : CharSpec :=
+  ⟨fun c => c == ' ', fun _ => false, fun c => c == 'x' || c == 'y', fun c => c == ' ' || c == '\n',
+   fun c => c == 'x' || c == 'y'⟩
+def C15_exEnv : Env := ⟨C15_exCs, ⟨Gen.EXT_MODES⟩, fun _ => none, fun _ _ => .ok, fun c => [c], 0⟩
+
+/-- an ingredient event `@-?x` -/
+def C15_exIngr (bits : Nat) : Ev Rat :=
+  .ingredient ⟨⟨⟨⟨bits⟩, ⟨1, 3⟩⟩, none, Text.fromStr ['x'] 3, none, none, none⟩, ⟨0, 4⟩⟩
+
+/-- the analysis stores the event's modifiers; a reference (`&`) inherits HIDDEN | OPT from its definition -/
+example : ((processEvent C15_exEnv [] (C15_exIngr 2)
+      (processEvent C15_exEnv [] (C15_exIngr 12) { block := some (.step []) }).2).2.ingredients.toList.map
+        (·.modifiers.bits)) = [12, 14] := by
+  decide +kernel
+
+/-- the hypothesis of `C15_parsed_recipe_mods_known` / `C15_roundtrip_parsed` is satisfiable -/
+theorem C15_parsed_recipe_exists : ∃ c, (parseRecipe (α := Rat) C15_exEnv []).output = some c := by
+  have hsome : (parseRecipe (α := Rat) C15_exEnv []).output.isSome = true := by
+    have hl : ∀ off, lexFrom C15_exCs off [] = [] := by intro off; unfold lexFrom; rfl
+    have hf : parseFrontmatter C15_exCs [] = none := by rfl
+    unfold parseRecipe pullEvents
+    simp only [C15_exEnv, hf, lex, hl]
+    rfl
+  cases hc : (parseRecipe (α := Rat) C15_exEnv []).output with
+  | none => rw [hc] at hsome; cases hsome
+  | some c => exact ⟨c, rfl⟩
+
+/-- … and so is `ParsedDerived` (scaled by 2, then converted) -/
+example (cv : Converter Rat) : ∃ r : ScaledRecipe Rat, ParsedDerived r := by
+  obtain ⟨c, hc⟩ := C15_parsed_recipe_exists
+  exact ⟨_, .convert cv .metric _ (.scale _ _ c hc cv 2)⟩
+
+/-- the invariant is not trivially true: it excludes undeclared bits -/
+example : ¬ EvModsOK (C15_exIngr 32) := by simp [EvModsOK, C15_exIngr]
+
+/-- `parse_modifiers` on the tokens of `-?` (HIDDEN | OPT) and of `@&+` (RECIPE | REF | NEW) -/
+example : (parseModifiers (α := Rat) [⟨.minus, ['-'], 1⟩, ⟨.question, ['?'], 2⟩] 1
+      ⟨[], 0, ⟨0⟩, C15_exCs, #[], none⟩).1.flags.val.bits = 12 ∧
+    (parseModifiers (α := Rat) [⟨.at, ['@'], 1⟩, ⟨.and, ['&'], 2⟩, ⟨.plus, ['+'], 3⟩] 1
+      ⟨[], 0, ⟨0⟩, C15_exCs, #[], none⟩).1.flags.val.bits = 19 := by
+  decide +kernel
 end Cook
